@@ -103,9 +103,17 @@ package dhash
 //@   ensures result1 == nil
 //@   ensures content(result0) == bcat(nonceOf(content(metadata), len(metadata), content(valueKey)), aeadSeal(keyOf(content(valueKey)), nonceOf(content(metadata), len(metadata), content(valueKey)), content(metadata)))
 
+// A value key is the provider's peer ID (a multihash, hence self-delimiting) followed by the context ID;
+// splitting cuts exactly after the multihash found at the front, whatever its code and length, and
+// succeeds exactly when there is one and it is a valid peer ID.
 //@ func CreateValueKey
 //@   property C12
+//@   ensures content(result) == bcat(content(pid), content(ctxID))
 
 //@ func SplitValueKey
 //@   property C12
+//@   pure
 //@   ensures result2 == nil ==> len(result1) <= len(valKey)
+//@   ensures result2 == nil <==> mhFrontOK(content(valKey)) && mhCastOK(bsub(content(valKey), 0, mhFrontLen(content(valKey))))
+//@   ensures result2 == nil ==> content(result0) == bsub(content(valKey), 0, mhFrontLen(content(valKey)))
+//@   ensures result2 == nil ==> result1 == valKey[mhFrontLen(content(valKey)):]
